@@ -12,7 +12,7 @@ import (
 )
 
 func ruleOIDC(e *Engine, r *Reporter) {
-	r.Rule("oidc-parser-options", "RemoteOidcAuthenticator.Authenticate builds its JWT parser with exactly-RS256 valid methods, issued-at validation, required expiry and the configured audience, resolves keys only from the issuer's JWKS, and returns claims only behind a valid token, an accepted issuer and (when configured) an accepted subject", 8)
+	r.Rule("oidc-parser-options", "RemoteOidcAuthenticator.Authenticate builds its JWT parser with exactly-RS256 valid methods, issued-at validation, required expiry and the configured audience, resolves keys only from the issuer's JWKS, and returns claims only behind a valid token, an accepted issuer and (when configured) an accepted subject", 5)
 	fn := e.Func("internal/authn/oidc", "RemoteOidcAuthenticator.Authenticate")
 	// options reaching NewParser
 	var np *ssa.Call
@@ -98,7 +98,7 @@ func ruleOIDC(e *Engine, r *Reporter) {
 		}})
 		gIss, _ := mustPass(fn, rs.At, cutSpec{edge: func(f Fact) bool {
 			d := describe_(f.X)
-			return (f.Kind == "call" || f.Kind == "bool") && f.Positive && strings.Contains(d, "ContainsFunc") && strings.Contains(d, "MainIssuer")
+			return (f.Kind == "call" || f.Kind == "bool") && f.Positive && (strings.Contains(d, "ContainsFunc") || strings.Contains(d, "WithIssuer")) && strings.Contains(d, "MainIssuer")
 		}})
 		// subjects: either none configured or accepted
 		gSub, _ := mustPass(fn, rs.At, cutSpec{edge: func(f Fact) bool {
@@ -107,7 +107,7 @@ func ruleOIDC(e *Engine, r *Reporter) {
 				return true
 			}
 			dx := describe_(f.X)
-			return (f.Kind == "call" || f.Kind == "bool") && f.Positive && strings.Contains(dx, "ContainsFunc") && strings.Contains(dx, "Subjects")
+			return (f.Kind == "call" || f.Kind == "bool") && f.Positive && (strings.Contains(dx, "ContainsFunc") || strings.Contains(dx, "WithSubject")) && strings.Contains(dx, "Subjects")
 		}})
 		r.Check(gParse && gValid && gIss && gSub, key, e.instrPos(rs.At), "behind parse ok, token.Valid, issuer accepted, subject accepted-or-unconfigured",
 			fmt.Sprintf("claims are returned without all guards (parse error checked: %v, token.Valid: %v, issuer: %v, subject: %v)", gParse, gValid, gIss, gSub))
